@@ -210,6 +210,19 @@ func faultMain(x *X) {
 	}
 	cancelled := o.CancelStep != 0 && o.Created
 	if cancelled {
+		if o.CancelStep > 0 && o.ExecEnd > 0 {
+			lat := o.ExecEnd - o.CancelStep
+			switch {
+			case lat <= 50:
+				x.Probe("cancel-latency<=50-steps")
+			case lat <= 200:
+				x.Probe("cancel-latency<=200-steps")
+			case lat <= dry.Steps/2+200:
+				x.Probe("cancel-latency<=half-run+200")
+			default:
+				x.Probe("cancel-latency>half-run+200")
+			}
+		}
 		bound := 4*dry.Steps + 200
 		if o.CancelStep > 0 && o.ExecEnd > 0 && o.ExecEnd-o.CancelStep > bound {
 			x.Viol("C14", "cancel-latency", "cancel-latency|"+shape, fmt.Sprintf("%s: Exec returned %d scheduling steps after the cancellation (bound %d = 4x fault-free run + 200)", op.Q, o.ExecEnd-o.CancelStep, bound))
